@@ -326,7 +326,8 @@ def tails(repo: Repo, chk: Check) -> None:
         "the field shape with the module's own default streamer configuration",
         floor=4,
     )
-    chk.rule("C08.stated-belief", "a value held in a variable named exactly like a declared field sits at that field's position", floor=3)
+    # opportunistic by nature: the rule only speaks where the author named a variable after a field, so no floor (a rename removes instances, not correctness)
+    chk.rule("C08.stated-belief", "a value held in a variable named exactly like a declared field sits at that field's position", floor=0)
     chk.rule("C08.launch", "the number of launch values equals the number of launch fields", floor=3)
     acc_base = repo.cls("snaxc/accelerators/accelerator.py", "Accelerator")
     n_acc = 0
@@ -488,6 +489,20 @@ def _inline_launch(repo: Repo, c: Cls, lshape):
 
 
 # --------------------------------------------------------------------------- padding / reuse collapse
+def _stride_zero_fact(site, svars: set[str]) -> bool:
+    """a must-fact `<temporal stride of this dimension> == 0` (the stride is recognised by provenance or as an element variable)"""
+    for f in site.facts:
+        if f.kind != "atom":
+            continue
+        m = norm.any_match(["$e == 0", "0 == $e"], f.expr)
+        if m is None:
+            continue
+        e = m["e"]
+        if norm.contains(e, T("$p.temporal_strides")) or (isinstance(e, ast.Name) and e.id in svars):
+            return True
+    return False
+
+
 def padding(repo: Repo, chk: Check) -> None:
     chk.rule(
         "C08.padding",
@@ -497,34 +512,57 @@ def padding(repo: Repo, chk: Check) -> None:
     )
     for path, qual in ((SNAX, "SNAXStreamer._generate_streamer_setup_vals"), (XDMA, "SNAXXDMAAccelerator._generate_stream_setup_vals")):
         f, fl = flow_of(repo, chk, path, qual)
-        pads = {}
+        # padded sequences, identified by provenance (not by name): kind "bounds" if the sequence derives from
+        # `.upper_bounds`, "strides" if from `.temporal_strides`
+        pads: dict[str, tuple] = {}
         for s in fl.stmts(ast.Assign):
             t = s.node.targets[0]
             if isinstance(t, ast.Name) and isinstance(s.node.value, ast.BinOp) and isinstance(s.node.value.op, ast.Add):
                 m = norm.match(T(f"{t.id} + (IntAttr($c),) * ($st.temporal_dim - len({t.id}))"), s.node.value)
                 if m is not None and isinstance(m["c"], ast.Constant):
-                    pads[t.id] = (m["c"].value, s)
-        for name, want in (("upper_bounds", 1), ("temporal_strides", 0)):
-            got = pads.get(name)
-            chk.result(got is not None and got[0] == want, "C08.padding", f"{f.key}:pad-{name}", got[1].where() if got else f.where,
-                       f"{name} padded with {want} up to the streamer's temporal dimensionality",
-                       f"{name} is not padded with IntAttr({want}) up to streamer.temporal_dim (found {got[0] if got else None}): unused hardware dimensions get a wrong "
+                    cone = fl.cone(ast.Name(t.id, ast.Load()), s, inline=0)
+                    kind = "bounds" if norm.contains(cone, T("$p.upper_bounds")) else "strides" if norm.contains(cone, T("$p.temporal_strides")) else None
+                    if kind:
+                        pads[t.id] = (m["c"].value, s, kind)
+        by_kind = {k: [(n, v) for n, v in pads.items() if v[2] == k] for k in ("bounds", "strides")}
+        for kind, want, label in (("bounds", 1, "upper_bounds"), ("strides", 0, "temporal_strides")):
+            got = by_kind[kind][0][1] if by_kind[kind] else None
+            chk.result(got is not None and got[0] == want, "C08.padding", f"{f.key}:pad-{label}", got[1].where() if got else f.where,
+                       f"the {kind} sequence is padded with {want} up to the streamer's temporal dimensionality",
+                       f"the sequence taken from .{label} is not padded with IntAttr({want}) up to streamer.temporal_dim (found {got[0] if got else None}): unused hardware dimensions get a wrong "
                        f"{'bound' if want == 1 else 'stride'}")
-        col = [s for s in fl.stmts(ast.Assign) if s.reachable and isinstance(s.node.targets[0], ast.Name) and s.node.targets[0].id == "bound" and isinstance(s.node.value, ast.Constant)]
-        okc = bool(col) and all(s.node.value.value == 1 and has_fact(s, ["$f == StreamerFlag.Reuse"]) and has_fact(s, ["$s == 0"]) for s in col)
+        bound_seqs = {n for n, _ in by_kind["bounds"]}
+        stride_seqs = {n for n, _ in by_kind["strides"]}
+        # element variables: `v = <seq>[dim].data` inside a temporal loop
+        elem_kind: dict[str, str] = {}
+        loads = []
+        for s in fl.stmts(ast.Assign):
+            t = s.node.targets[0]
+            m = norm.match(T("$seq[$i].data"), s.node.value) if isinstance(t, ast.Name) else None
+            if m is not None and isinstance(m["seq"], ast.Name) and s.loops:
+                loads.append((s, t.id, m["seq"].id))
+                if m["seq"].id in bound_seqs:
+                    elem_kind[t.id] = "bounds"
+                elif m["seq"].id in stride_seqs:
+                    elem_kind[t.id] = "strides"
+        bvars = {n for n, k in elem_kind.items() if k == "bounds"}
+        svars = {n for n, k in elem_kind.items() if k == "strides"}
+        col = [s for s in fl.stmts(ast.Assign) if s.reachable and isinstance(s.node.targets[0], ast.Name) and s.node.targets[0].id in bvars and isinstance(s.node.value, ast.Constant)]
+        okc = bool(col) and all(
+            s.node.value.value == 1 and has_fact(s, ["$f == StreamerFlag.Reuse"]) and _stride_zero_fact(s, svars) for s in col)
         chk.result(okc, "C08.padding", f"{f.key}:reuse-collapse", col[0].where() if col else f.where, "a bound is collapsed to 1 only for a Reuse dimension with stride 0",
                    "the reuse collapse `bound = 1` is not guarded by `flag == Reuse and stride == 0`", col[0].fact_texts if col else [])
-        idx = [s for s in fl.stmts(ast.Assign) if s.reachable and s.loops and isinstance(s.node.targets[0], ast.Name) and s.node.targets[0].id in ("bound", "stride")
-               and isinstance(s.node.value, ast.Attribute) and isinstance(s.node.value.value, ast.Subscript)]
+        # inside loops over the streamer's temporal dimensions only padded sequences are indexed
         oki = True
-        for s in idx:
-            lp = [l for l in s.loops if isinstance(l, ast.For)][-1]
-            base = ast.unparse(s.node.value.value.value)
-            if "temporal_dims" in ast.unparse(lp.iter):
-                want = "upper_bounds" if s.node.targets[0].id == "bound" else "temporal_strides"
-                oki = oki and base == want
-        chk.result(oki and bool(idx), "C08.padding", f"{f.key}:indexing", f.where, "the temporal loops index the padded upper_bounds / temporal_strides",
-                   "a temporal-dimension loop reads bounds/strides from the wrong (or unpadded) sequence")
+        n_idx = 0
+        for s, var, seq in loads:
+            lp = [l for l in s.loops if isinstance(l, ast.For)]
+            if not lp or "temporal_dims" not in ast.unparse(lp[-1].iter):
+                continue
+            n_idx += 1
+            oki = oki and seq in pads
+        chk.result(oki and n_idx > 0, "C08.padding", f"{f.key}:indexing", f.where, "the temporal loops index the padded bound / stride sequences",
+                   "a temporal-dimension loop reads bounds/strides from an unpadded sequence")
 
 
 # --------------------------------------------------------------------------- extension tables
